@@ -275,6 +275,17 @@ def g4(rng, f, fname, n):
     p = pool(fname, f)
     a = p[rng.integers(0, len(p), size=n)]
     b = p[rng.integers(0, len(p), size=n)]
+    # approach every pool value geometrically as well (index +- 2^u, u uniform in [0, p+3]): a cancellation error peaks at a
+    # distance ~2^(p/2) ULP from the threshold, outside the fixed +-5000-ULP neighbourhoods of the pool
+    def approach(v):
+        d = np.floor(np.exp2(rng.uniform(0, f.p + 3, size=n))).astype(np.int64) * rng.choice([-1, 1], size=n)
+        d = np.where(rng.random(n) < 0.5, d, 0)
+        ok = np.isfinite(v)
+        idx = flt.np_index(np.where(ok, v, 0).astype(f.ftype))
+        w = flt.np_from_index(np.clip(idx + d, -f.largest_bits, f.largest_bits), f)
+        return np.where(ok, w, v).astype(f.ftype)
+
+    a, b = approach(a), approach(b)
     r1, r2 = g1(rng, f, n)
     sel = rng.integers(0, 3, size=n)
     re = np.where(sel == 1, r1, a).astype(f.ftype)
